@@ -256,6 +256,21 @@ theorem kind_change_below_renamed_dir_witness :
     (uploadInc { c with kindChangeAtNew := true } [] t d remote).2 = none ∧
     isLink (uploadInc { c with kindChangeAtNew := true } [] t d remote) ["e", "a"] "t1" = true := by decide
 
+/-- deferred directory deletions run after the renames are finished, with the
+old paths: (1) a directory removed below a renamed directory is no longer
+there (NoSuchFile); (2) a directory renamed onto the path of a removed
+directory is what the deferred rmdir then finds (DirectoryNotEmpty) -/
+theorem deferred_deletion_witnesses :
+    let c : Cfg := { renames := .childrenFirst, robustSymlinks := true }
+    let r1 := uploadInc c [] [⟨["e"], .dir, "", false, ""⟩, ⟨["e", "f"], .file, "2", false, ""⟩]
+      { removed := [⟨["a", "d"], .dir⟩, ⟨["a", "d", "b"], .file⟩], renamed := [⟨["a"], ["e"], false⟩] }
+      (.dir [("a", .dir [("d", .dir [("b", .file "1" false)]), ("f", .file "2" false)])])
+    let r2 := uploadInc c [] [⟨["a"], .dir, "", false, ""⟩, ⟨["e"], .file, "1", false, ""⟩, ⟨["a", "b"], .file, "2", false, ""⟩]
+      { removed := [⟨["a"], .dir⟩], renamed := [⟨["a", "a"], ["e"], false⟩, ⟨["d"], ["a"], false⟩] }
+      (.dir [("a", .dir [("a", .file "1" false)]), ("d", .dir [("b", .file "2" false)])])
+    r1.2 = some .noSuchFile ∧ present r1 ["e", "d"] = true ∧
+    r2.2 = some .dirNotEmpty ∧ isFile r2 ["a", "b"] "2" false = true := by decide
+
 /-- `upload --full` onto an existing remote never deletes what left the tree -/
 theorem full_upload_keeps_stale_witness :
     let r := uploadFull {} [] [⟨["a"], .file, "x", false, ""⟩] (.dir [("a", .file "old" false), ("gone", .file "y" false)])
